@@ -672,6 +672,29 @@ impl<S: KSub> System for KSys<S> {
     fn may_inject(&self, o: &KObj<S>) -> bool {
         o.inj_used < self.inj_budget
     }
+    fn audit_suffixes(&self, o: &KObj<S>) -> Vec<Vec<u32>> {
+        let mut battery = vec![];
+        for p in 0..=self.probes() {
+            battery.push(op(K_GET, p, 0));
+            battery.push(op(K_FLE, p, 0));
+            battery.push(op(K_FL, p, 0));
+            battery.push(op(K_FLEBY, p, 0));
+        }
+        let mut v = vec![battery.clone()];
+        let mut with = |first: u32| {
+            let mut h = vec![first];
+            h.extend(battery.iter().copied());
+            v.push(h);
+        };
+        with(op(K_CLEAR, 0, 0));
+        if o.t > 0 {
+            with(op(K_RESTART, 0, 0));
+        }
+        if o.t < self.tmax {
+            with(op(K_TICK, 0, 0));
+        }
+        v
+    }
     fn step_allowed(&self, o: &KObj<S>, op: u32) -> bool {
         let mut v = vec![];
         self.enabled(o, &mut v);
